@@ -630,7 +630,9 @@ fn do_call(env: &mut Env, hs: &[Hdr], before: &[u8], kind: Kind, th: usize, sel:
     // .rip/artifacts/blobs is a regular file (StoreFx::BlobsIsFile): ripd cannot write a bundle either
     let store_broken = blobs_dir(env).exists() && !blobs_dir(env).is_dir();
     let bundle_fail = inject_fail || (store_broken && art.is_none() && md.is_some());
-    let art_exists = art.as_ref().map(|x| blobs_dir(env).join(x).is_file()).unwrap_or(false);
+    // what the store is expected to accept (since the repair of S30): ONE plain name that is a regular file in blobs/
+    let plain_name = |x: &str| !x.is_empty() && !x.contains('/') && x != "." && x != "..";
+    let art_exists = art.as_ref().map(|x| plain_name(x) && blobs_dir(env).join(x).is_file()).unwrap_or(false);
 
     // ---- environment faults
     if let Some(k) = stale {
@@ -990,7 +992,7 @@ fn do_call(env: &mut Env, hs: &[Hdr], before: &[u8], kind: Kind, th: usize, sel:
             use std::os::unix::ffi::OsStrExt;
             let exp = [passed as u64, *is_file as u64, *exists as u64, *is_dir as u64, read.map(|n| 1 + n).unwrap_or(0), under.map(|u| 1 + u as u64).unwrap_or(0)];
             let fs_coq = coq_list(listing, |(p, n)| format!("({}, {})", coq_list(p, |c| coq_bytes(c)), match n { None => "Dir".to_string(), Some(len) => format!("(File [{len}])") }));
-            let term = format!("{{| a_fs := {}; a_base := {}; a_id := {}; a_guard := 0; a_expect := {} |}}", fs_coq, coq_bytes(blobs_abs.as_os_str().as_bytes()), coq_bytes(id.as_bytes()), coq_list_n(&exp));
+            let term = format!("{{| a_fs := {}; a_base := {}; a_id := {}; a_guard := 4; a_expect := {} |}}", fs_coq, coq_bytes(blobs_abs.as_os_str().as_bytes()), coq_bytes(id.as_bytes()), coq_list_n(&exp));
             let shown: String = id.chars().take(120).collect();
             out.art_terms.push((term, json!({"summary_artifact_id": shown, "id_len": id.len(), "call": format!("{kind:?} http={http}"), "observed [passed, is_file, exists, is_dir, read, under]": exp.to_vec(), "result": match &res { Ok(_) => "ok".to_string(), Err(e) => e.clone() }})));
         }
